@@ -20,7 +20,7 @@ ASSUMPTIONS = [
     "scheduling: optimum compared with the brute-force optimum over semi-active schedules (which contain an optimal schedule); FJSP/JSSP with waits enabled",
     "MDCPDP: canonical form = set of (depot, route) over the non-empty tours; idle depot hops, the order in which vehicles leave and the (unused) depots visited only to end the episode are forgotten. Candidates: every customer order cut into <= D routes, each given to a distinct depot",
 ]
-REQUIRED_COUNTERS = ["c05_sdvrp_split_instances", "c05_sdvrp_instances_with_revisits", "c05_other_size_envs", "c05_instances_fully_explored", "c05_candidates_checked", "c05_optimum_compared", "c05_boundary_instances", "c05_exact_fill_candidates", "c05_semi_active_schedules", "c05_explored_in_company"]
+REQUIRED_COUNTERS = ["c05_sdvrp_split_instances", "c05_sdvrp_instances_with_revisits", "c05_other_size_envs", "c05_instances_fully_explored", "c05_candidates_checked", "c05_optimum_compared", "c05_boundary_instances", "c05_exact_fill_candidates", "c05_semi_active_schedules", "c05_explored_in_company", "c05_ffsp_rule_states"]
 MIN_NONTRIVIAL = {"quick": 150, "thorough": 2500}
 WORKERS = {"quick": 14, "thorough": 16}
 BUDGET_S = {"quick": 600, "thorough": 3300}
